@@ -1252,7 +1252,15 @@ func (p *parser) parseBlock(block text.BlockReader, parent ast.Node, pc Context)
 		if lineBreakFlags&(lineBreakHard|lineBreakVisible) == lineBreakHard|lineBreakVisible {
 			text = ast.NewTextSegment(diff)
 		} else {
-			text = ast.NewTextSegment(diff.TrimRightSpace(source))
+			trimmed := diff.TrimRightSpace(source)
+			if trimmed.IsEmpty() {
+				// the line's trailing spaces may already have been flushed into the previous text
+				if last, ok := parent.LastChild().(*ast.Text); ok && last.Segment.Stop == diff.Start &&
+					!last.SoftLineBreak() && !last.HardLineBreak() && !last.IsRaw() {
+					last.Segment = last.Segment.TrimRightSpace(source)
+				}
+			}
+			text = ast.NewTextSegment(trimmed)
 		}
 		text.SetSoftLineBreak(lineBreakFlags&lineBreakSoft != 0)
 		text.SetHardLineBreak(lineBreakFlags&lineBreakHard != 0)
